@@ -82,3 +82,25 @@ Theorem C02_budget_refuted : exists c ops q k v,
   get (recover (crash (run c ops) q)) k = None.
 Proof. exact EngineCrashProofs.C02_budget_refuted. Qed.
 Print Assumptions C02_budget_refuted.
+
+(* finding D20: log retention by acknowledged sequence number alone (Engine.retain models
+   WAL.ManageRetention as Primary.maybeManageWALRetention calls it).  A reachable state, every
+   write acknowledged and synced, nothing cut from the newest log file: the recovered database
+   lacks an acknowledged write.  (That retirement right after a FULL flush is harmless is
+   the second half of C12_reopen in Props/C12.v.) *)
+Theorem C02_retention_refuted : exists c ops acked k v,
+  let s := run c ops in
+  acked <= wal_next s /\
+  lost_log s = false /\
+  get s k = Some v /\
+  get (retain acked s) k = Some v /\
+  lost_log (recover (crash (retain acked s) (wal_next s))) = false /\
+  get (recover (crash (retain acked s) (wal_next s))) k = None.
+Proof. exact EngineCrashProofs.C02_retention_refuted. Qed.
+Print Assumptions C02_retention_refuted.
+(* what retention does guarantee: the current file stays, and a deleted file held only entries
+   numbered below the acknowledged number *)
+Theorem C02_retention_drops_only_acked : forall acked s f e,
+  In f (wal_files s) -> ~ In f (wal_files (retain acked s)) -> In e f -> w_seq e < acked.
+Proof. exact EngineCrashProofs.retain_drops_only_acked. Qed.
+Print Assumptions C02_retention_drops_only_acked.
